@@ -273,6 +273,25 @@ func pickDefect(root *rnode, r *Rng) (int, *rnode) {
 			}
 		}
 		if len(cand) > 0 {
+			if d == dLongForm || d == dLenPlus || d == dLenMinus || d == dLenLeadZero {
+				// the edge of the short/long form rule: prefer nodes whose payload is 54..56 bytes long
+				var edge []*rnode
+				for _, n := range cand {
+					pl := len(n.b)
+					if n.list {
+						pl = 0
+						for _, k := range n.kids {
+							pl += len(canon.enc(k))
+						}
+					}
+					if pl >= 54 && pl <= 56 {
+						edge = append(edge, n)
+					}
+				}
+				if len(edge) > 0 && r.Intn(3) != 0 {
+					return d, edge[r.Intn(len(edge))]
+				}
+			}
 			return d, cand[r.Intn(len(cand))]
 		}
 	}
@@ -546,7 +565,7 @@ func (g *c23run) strLen() int {
 	case 3:
 		return 55
 	case 4:
-		return 56
+		return 54 + g.r.Intn(3)
 	case 5:
 		return 57 + g.r.Intn(200)
 	case 6:
